@@ -194,7 +194,7 @@ def tsan_cases(ctx):
     if corpus.exists():
         cases += [ln.strip() for ln in corpus.read_text().split("\n") if ln.strip() and not ln.startswith("#")]
     g = ctx.gen("tsan")
-    nseeds = ctx.n(1, 6)
+    nseeds = ctx.n(1, 10)
     for i in range(nseeds):
         for kind in KINDS:
             seed = g.r.randint(1, 10 ** 6)
